@@ -291,6 +291,49 @@ def run(ctx: Ctx):
     treecontract.uninstall()
 
 
+def document_fields(ctx, case, adoc, text):
+    """What the Document keeps beside the tree is a function of THIS text only: the stage of the header line, the stages at which
+    measures start, and per page the union of its *xywh boxes with the number of measures begun before the first of them.
+    (Documents imported earlier in the process have their own.)"""
+    from ..model import measures as MM
+    d, e, exc = kpx.loads(text)
+    if exc is not None:
+        return
+    ctx.ev()
+    ctx.mon('document_field_checks')
+    nonblank = [i for i, ln in enumerate(adoc.lines) if ln.kind != 'b']
+    stage_of = {li: k + 1 for k, li in enumerate(nonblank)}
+    starts = MM.measure_starts(adoc)
+    want_starts = [stage_of[li] for li in starts]
+    if list(d.measure_start_tree_stages) != want_starts:
+        ctx.violation('document-fields', f'measure_start_tree_stages = {list(d.measure_start_tree_stages)[:8]}, the text\'s measures start at '
+                      f'stages {want_starts[:8]}', dict(case, text=text))
+    hl = next(li for li, ln in enumerate(adoc.lines) if ln.kind == 'header')
+    if d.header_stage != stage_of[hl]:
+        ctx.violation('document-fields', f'header_stage = {d.header_stage}, the header line is stage {stage_of[hl]}', dict(case, text=text))
+    pages = {}
+    for li, ln in enumerate(adoc.lines):
+        if ln.kind in ('g', 'b'):
+            continue
+        for c in ln.cells:
+            m = RE_BBOX.match(c.text)
+            if m:
+                pg, x_, y_, w_, h_ = (int(g) for g in m.groups())
+                before = sum(1 for s_ in starts if s_ < li)
+                cur = pages.get(str(pg))
+                if cur is None:
+                    pages[str(pg)] = [x_, y_, x_ + w_, y_ + h_, before]
+                else:
+                    cur[0], cur[1], cur[2], cur[3] = min(cur[0], x_), min(cur[1], y_), max(cur[2], x_ + w_), max(cur[3], y_ + h_)
+    got = {str(k): [v.bounding_box.from_x, v.bounding_box.from_y, v.bounding_box.to_x, v.bounding_box.to_y, v.from_measure]
+           for k, v in d.page_bounding_boxes.items()}
+    if pages:
+        ctx.mon('documents_with_page_boxes')
+    if got != pages:
+        ctx.violation('document-fields', f'page_bounding_boxes = {got}, the boxes written in this text give {pages} '
+                      f'(page -> [x1, y1, x2, y2, measures begun before the first box])', dict(case, text=text))
+
+
 def one_doc(ctx, cs, i=0):
     import random
     rng = random.Random(cs)
@@ -301,6 +344,7 @@ def one_doc(ctx, cs, i=0):
     run_case(ctx, case, lines, doc.headers, expected_enc=doc_expected_enc(doc),
              nontrivial=bool(doc.tags & {'splits', 'joins', 'hostile_text'}))
     ctx.cls(*sorted(doc.tags))
+    document_fields(ctx, case, doc, render(lines))
     if i % 2 == 0:
         # other API calls between two imports (exports by measure, filtered exports, queries): the next import must not care
         d_, _, _ = kpx.loads(render(lines))
